@@ -121,7 +121,8 @@ class PipeAnalysis:
                 # nn.Module semantics: only __call__ runs the registered hooks; a direct forward() is not `aggregator(J)`
                 self.ops.pev("aggregator_bypass", node, what="forward() called directly")
             lay = [l for l in (m.layout if isinstance(m, TV) else ()) if l[0] == 1]
-            self.ops.pev("aggregator_call", node, matrix=repr(m), column_layout=repr(lay[0][1]) if lay else None)
+            self.ops.pev("aggregator_call", node, matrix=repr(m), column_layout=repr(lay[0][1]) if lay else None,
+                         rowspan=(m.rowspan if isinstance(m, TV) else None) if self.ops.inst is not None else None)
             if I.join_depth == 0:
                 c = I.oracle.decide(f"{info.qualname}: aggregator rejects", 2)
                 if c == 1:
@@ -142,18 +143,36 @@ class PipeAnalysis:
     def aggregator(self):
         return ObjV(self.agg_cls)
 
-    def run_backward(self, inputs_given: bool, chunk_given: bool, single: bool = False):
+    def chunk_arg(self, chunk_given, inst):
+        if not chunk_given:
+            return NONE
+        if inst is not None and inst.get("k") is not None:
+            return TV(kind="pyint", poly=Poly.const(inst["k"]), origin=frozenset(["parallel_chunk_size"]))
+        return TV(kind="pyint", poly=Poly.sym("k"), origin=frozenset(["parallel_chunk_size"]))
+
+    def run_instance(self, entry: str, m: int, k):
+        """The same abstract run with concrete sizes: m rows in the stack of cotangents, parallel_chunk_size = k (None: not given).
+        Tensors stay abstract; loops over row blocks run iteration by iteration and every value remembers which rows it carries."""
+        self.ops.inst = {"m": m, "k": k}
+        try:
+            if entry == "backward":
+                return self.run_backward(True, k is not None, inst=self.ops.inst)
+            return self.run_mtl(True, True, k is not None, inst=self.ops.inst)
+        finally:
+            self.ops.inst = None
+
+    def run_backward(self, inputs_given: bool, chunk_given: bool, single: bool = False, inst=None):
         f = self.index.get_function("torchjd.autojac.backward.backward")
         args = {
             "tensors": key_tv("tensors") if single else keys_list("tensors"),
             "aggregator": self.aggregator(),
             "inputs": keys_list("inputs") if inputs_given else NONE,
             "retain_graph": flag("retain_graph"),
-            "parallel_chunk_size": TV(kind="pyint", poly=Poly.sym("k"), origin=frozenset(["parallel_chunk_size"])) if chunk_given else NONE,
+            "parallel_chunk_size": self.chunk_arg(chunk_given, inst),
         }
         return self._run(f, args)
 
-    def run_mtl(self, tasks_given: bool, shared_given: bool, chunk_given: bool, single: bool = False):
+    def run_mtl(self, tasks_given: bool, shared_given: bool, chunk_given: bool, single: bool = False, inst=None):
         f = self.index.get_function("torchjd.autojac.mtl_backward.mtl_backward")
         tp = ListV(items=None, elem=keys_list("tasks_params[i]"), kind="list", order=(("tasks",), "same"))
         args = {
@@ -163,7 +182,7 @@ class PipeAnalysis:
             "tasks_params": tp if tasks_given else NONE,
             "shared_params": keys_list("shared_params") if shared_given else NONE,
             "retain_graph": flag("retain_graph"),
-            "parallel_chunk_size": TV(kind="pyint", poly=Poly.sym("k"), origin=frozenset(["parallel_chunk_size"])) if chunk_given else NONE,
+            "parallel_chunk_size": self.chunk_arg(chunk_given, inst),
         }
         return self._run(f, args)
 
